@@ -27,7 +27,7 @@ const propID = "C16"
 
 const H = world.H
 
-var kinds = []string{"small", "spooled", "cut-spooled", "retry-fail", "redirects", "five-hosts", "discarded", "five-hosts-limited", "discarded-gzip", "redirect-limit"}
+var kinds = []string{"small", "spooled", "cut-spooled", "retry-fail", "redirects", "five-hosts", "discarded", "five-hosts-limited", "discarded-gzip", "redirect-limit", "stalled"}
 
 type scen struct {
 	Seq     []string `json:"sequence"`
@@ -66,6 +66,8 @@ func dyn(u string, attempt int) (world.Resp, bool) {
 		switch kind {
 		case "small":
 			return world.Resp{Status: 200, Header: html, Body: `<!DOCTYPE html><html><body><img src="` + base + `/a.png"></body></html>`}, true
+		case "stalled": // an asset whose transfer goes silent for 90 s after 3 KiB (longer than --http-read-deadline) and then breaks
+			return world.Resp{Status: 200, Header: html, Body: `<!DOCTYPE html><html><body><img src="` + base + `/stall.bin"></body></html>`}, true
 		case "two": // two assets, fetched by two goroutines at once when --max-concurrent-assets allows
 			// on two hosts: neither waits for the other's limiter tokens, both requests leave at the same instant
 			return world.Resp{Status: 200, Header: html, Body: `<!DOCTYPE html><html><body><img src="http://h1.example` + base + `/a.png"><img src="http://h2.example` + base + `/b.png"></body></html>`}, true
@@ -107,6 +109,8 @@ func dyn(u string, attempt int) (world.Resp, bool) {
 			png.DelayMs = 10
 		}
 		return png, true
+	case rest == "stall.bin":
+		return world.Resp{Status: 200, Header: map[string]string{"Content-Type": "application/octet-stream"}, Body: strings.Repeat("\x01\x02\x03\x04", 4096), CutAt: 3072, StallMs: 90000}, true
 	case rest == "big.txt":
 		return world.Resp{Status: 200, Header: map[string]string{"Content-Type": "text/plain"}, Body: bigBody}, true
 	case rest == "cut.txt": // the connection breaks after 2.1 MiB: the body is already spooled to a temp file
@@ -134,13 +138,13 @@ func dyn(u string, attempt int) (world.Resp, bool) {
 
 // footprint is the observable resource state at quiescence.
 type footprint struct {
-	Threads     int `json:"threads"`
-	BodiesOpen  int `json:"bodies_open"`
-	TempFiles   int `json:"temp_files"`
-	Tracked     int `json:"reactor_tracked"`
-	Tokens      int `json:"reactor_tokens"`
-	Buckets     int `json:"limiter_buckets"`
-	ItemBodies  int `json:"item_bodies_not_released"`
+	Threads    int `json:"threads"`
+	BodiesOpen int `json:"bodies_open"`
+	TempFiles  int `json:"temp_files"`
+	Tracked    int `json:"reactor_tracked"`
+	Tokens     int `json:"reactor_tokens"`
+	Buckets    int `json:"limiter_buckets"`
+	ItemBodies int `json:"item_bodies_not_released"`
 }
 
 func (f footprint) String() string {
@@ -366,7 +370,7 @@ func main() {
 		"states": total.States, "transitions": total.Transitions, "traces_validated_against_impl": total.Executions,
 		"samples": []any{total.Sample}, "exhaustive": total.Exhaustive, "sequences": len(ss), "alphabet": kinds,
 		"quiescent_states_reached": finals,
-		"explanation": "every sequence of seed kinds up to the length bound (quick 2, thorough 3) over {small page+asset, 2.2 MiB spooled text body, spooled body whose connection breaks mid-way, retry-then-fail, redirect chain, five hosts, discarded 429, five hosts all answering 429, gzip-encoded challenge page and 503, redirect chain beyond --max-redirect with spooled bodies} run to quiescence plus one limiter clean-up period on the real pipeline (rate limiter on, virtual clock); the footprint vector (live threads, open bodies, temp files, reactor entries/tokens, limiter buckets, unreleased item bodies) must equal the idle footprint measured before the first seed; limiter table within its bound at every step",
+		"explanation":              "every sequence of seed kinds up to the length bound (quick 2, thorough 3) over {small page+asset, 2.2 MiB spooled text body, spooled body whose connection breaks mid-way, retry-then-fail, redirect chain, five hosts, discarded 429, five hosts all answering 429, gzip-encoded challenge page and 503, redirect chain beyond --max-redirect with spooled bodies} run to quiescence plus one limiter clean-up period on the real pipeline (rate limiter on, virtual clock); the footprint vector (live threads, open bodies, temp files, reactor entries/tokens, limiter buckets, unreleased item bodies) must equal the idle footprint measured before the first seed; limiter table within its bound at every step",
 	}, []string{
 		"goroutines = threads owned by the scheduler (every go statement of the instrumented packages); file descriptors are represented by open response bodies and temp files - OS-level fd/goroutine counts of the real process are outside this part",
 		"fixpoint: since every sequence returns to the one idle state, the reachable quiescent states are closed under the alphabet at depth 1",
